@@ -40,7 +40,9 @@ def distinct_keys(keys):
         if not any(k == o and type(k) is not str and type(o) is not str for o in out):
             out.append(k)
     return out
-VALUES = [0, 1, 5, 'v', {'t': [1, 2]}, None, {'b': '00'}, {'l': [1]}, {'f': '1.5'}, '', {'l': []}, {'f': '0.0'}, -1]
+VALUES = [0, 1, 5, 'v', {'t': [1, 2]}, None, {'b': '00'}, {'l': [1]}, {'f': '1.5'}, '', {'l': []}, {'f': '0.0'}, -1,
+          # any picklable value comes back as the object it was - a str subclass (Django's SafeString), a bool, an int subclass
+          {'sub': ['str', '<b>safe</b>']}, {'sub': ['str', 'x' * 40000]}, True, False, {'sub': ['int', 3]}]
 TIMEOUTS = ['DEFAULT', 'DEFAULT', None, 0, -1, 1, 2.5, 100]
 
 
